@@ -282,7 +282,7 @@ impl HttpClient {
             s.set_only_v6(false).ok();
         }
         s.bind(&SocketAddr::new(from, 0).into()).map_err(|e| format!("bind {from}: {e}"))?;
-        s.connect_timeout(&to.into(), Duration::from_secs(5)).map_err(|e| format!("connect {to}: {e}"))?;
+        s.connect_timeout(&to.into(), reply_wait()).map_err(|e| format!("connect {to}: {e}"))?;
         let stream: TcpStream = s.into();
         stream.set_nodelay(true).ok();
         let local = stream.local_addr().map_err(|e| e.to_string())?;
@@ -457,10 +457,10 @@ impl WsClient {
             s.set_only_v6(false).ok();
         }
         s.bind(&SocketAddr::new(from, 0).into()).map_err(|e| format!("bind {from}: {e}"))?;
-        s.connect_timeout(&to.into(), Duration::from_secs(5)).map_err(|e| format!("connect {to}: {e}"))?;
+        s.connect_timeout(&to.into(), reply_wait()).map_err(|e| format!("connect {to}: {e}"))?;
         let stream: TcpStream = s.into();
         stream.set_nodelay(true).ok();
-        stream.set_read_timeout(Some(Duration::from_secs(5))).ok();
+        stream.set_read_timeout(Some(reply_wait())).ok();
         let local = stream.local_addr().map_err(|e| e.to_string())?;
         let url = format!("ws://{}/", to);
         let (ws, _) = tungstenite::client::client(url.as_str(), stream).map_err(|e| format!("ws handshake: {e}"))?;
